@@ -4,7 +4,16 @@ go 1.22.0
 
 require github.com/stevenh/tracktools v0.0.0
 
-require gonum.org/v1/gonum v0.15.1 // indirect
+require (
+	github.com/Eyevinn/mp4ff v0.47.0 // indirect
+	github.com/mattn/go-colorable v0.1.14 // indirect
+	github.com/mattn/go-isatty v0.0.20 // indirect
+	github.com/rs/zerolog v1.33.0 // indirect
+	github.com/tidwall/geodesic v1.52.4 // indirect
+	golang.org/x/sys v0.29.0 // indirect
+	golang.org/x/text v0.21.0 // indirect
+	gonum.org/v1/gonum v0.15.1
+)
 
 replace github.com/stevenh/tracktools => /repo
 
